@@ -128,7 +128,7 @@ class JournalReplayer:
             c = call_from_compact(row["c"])
             out = u.apply(c)
             post = u.project()
-            plain.append((out, post))
+            plain.append((out, post, u.last_ret))
             dirty = post != pre
         # 2. journal pass
         u, journals, active, snaps = self.build_journaled(h, rec)
@@ -173,10 +173,14 @@ class JournalReplayer:
                 post = u.project()
                 dirty = post != pre
                 self.kinds[(c["op"], row["out"] != "ok", len(active))] += 1
-                if (out, post) != pl:
+                if (out, post) != pl[:2]:
                     what = "outcome" if out != pl[0] else "state"
                     self.finding("C20", f"C20:transparent:{c['op']}:{what}", rec, row, journaled=out, plain=pl[0],
                                  message=f"{c['op']} behaves differently inside a journal: {out} vs {pl[0]} ({what})")
+                    continue
+                if u.last_ret != pl[2]:
+                    self.finding("C20", f"C20:transparent:{c['op']}:return-value", rec, row, journaled=u.last_ret, plain=pl[2],
+                                 message=f"{c['op']} returns {u.last_ret} inside a journal and {pl[2]} without one")
                     continue
                 if row.get("probe"):
                     continue
